@@ -8,11 +8,11 @@ TRUSTED = ("Trusted base: sha2 compression functions; field/curve arithmetic, po
 # id -> (built, technique, level text, design ref)
 P = {
  "C01": (True, "bounded exhaustive exploration of the honest-flow LTS over deviation-bounded input tuples (explicit-state, real API as transition function)",
-         "Every input tuple with <=2 (quick) / <=3 (thorough, plus the full boundary product) deviations from the default over the stated alphabets x 20 suites x KSF families is run through the 9 real protocol steps in the production build; differential oracle between the two parties in every terminal state.", "3/C01"),
+         "Every input tuple with <=2 (quick) / <=3 (thorough, plus the full boundary product and a hash-block length family) deviations from the default x 20 suites x KSF families is run through the 9 real protocol steps in the production build; in addition all registration/login histories within C16's bounds, the routing population of C07(a) and all matched parameter triples of C05 (explicit-public-key spellings, empty vs absent) are explored with the oracle 'honest, matched behaviour succeeds with equal keys'.", "3/C01"),
  "C02": (True, "exhaustive enumeration of all ordered password pairs of the alphabet on the real login path",
          "All 210 ordered pairs of distinct passwords (single-bit, prefix, case, NUL, empty, 255/256/65535-byte) x 2 settings x 20 suites; each is a path login start -> server start -> client finish -> 3 server-finish candidates; oracle: exactly InvalidLoginError and no server completion.", "3/C02"),
  "C03": (True, "exhaustive enumeration of (pending server state, finalization candidate) transitions of the real ServerLogin::finish",
-         "4 pending server states x the complete candidate menu incl. ALL single-bit flips and ALL single-byte substitutions of the genuine message, foreign finalizations, constants, confusable values; oracle: key iff genuine and matched, else exactly InvalidLoginError.", "3/C03"),
+         "4 pending server states (natively stored and after a bincode/JSON reload) x the complete candidate menu incl. ALL single-bit flips and ALL single-byte substitutions of the genuine message, foreign finalizations, constants, confusable values and tags an outsider could compute from the public transcript; oracle: key iff genuine and matched, else exactly InvalidLoginError.", "3/C03"),
  "C04": (True, "explicit-state enumeration of the response mutation LTS on the real ClientLogin::finish (depth 1 complete + 1- and 2-field splices)",
          "Every single-byte substitution (thorough: all offsets x 255 values), every 1-/2-field splice from 8 donor responses, whole-response swaps and the reflected element are applied to the genuine response of an honest login; oracle: anything that does not decode to the genuine object is rejected.", "3/C04"),
  "C05": (True, "bounded exhaustive exploration of (registration, server, client) parameter triples against a ghost oracle from the specification",
@@ -22,7 +22,7 @@ P = {
  "C07": (True, "explicit-state model checking: complete adversarial routing product + BFS over all call interleavings on a shared RNG (own explorer, stateright cross-count)",
          "(a) For the population the property states, every response is delivered to every client session and every finalization to every server session (complete routing product) in several generation orders; (b) BFS over all causally valid interleavings of the generating calls on shared and per-party RNGs with the routing product as invariant in every maximal state; ghost matched-conversation oracle.", "3/C07"),
  "C08": (True, "explicit-state BFS over histories of fake attempts and real logins on one server tape (own explorer, stateright cross-count)",
-         "All histories up to depth 3-5 over {4 fake attempts, real login} x 2 settings x 20 suites; 5-part invariant on the newest fake attempt against all earlier ones (structure, evaluation = model, no field repeats, masking key identified as a fresh draw, same client error, no server completion).", "3/C08"),
+         "All histories up to depth 3-5 over {6 fake attempts (3 credential ids incl. empty x 2 requests), real login} x 2 settings x 20 suites; invariant on the newest fake attempt against all earlier ones (structure, evaluation = model, no response field and no part of the pending state repeats, masking key identified as a fresh draw, same client error, no server completion incl. publicly computable tags).", "3/C08"),
  "C09": (True, "lock-step exploration of implementation and an independent executable RFC 9807/9497 reference model over deviation-bounded inputs",
          "Every explored flow (C01's input space, with and without a password file, 3 KSF families) is executed on the implementation and on a reference model that shares no code with opaque-ke/voprf and reproduces all 9 RFC vectors; all messages, states and keys are compared byte-for-byte, random choices being witnessed by search over recorded draws.", "3/C09"),
  "C10": (True, "explicit-state enumeration of the decoder mutation LTS on the real decoders (depth 1 complete, depth 2 on tags)",
@@ -30,19 +30,19 @@ P = {
  "C11": (True, "exhaustive enumeration of (decoder, field, invalid-encoding, codec) injections on the real decoders",
          "Complete product of every group-element/scalar field of every message and state x a ground-truth-checked menu of invalid encodings x {native, bincode, JSON}, all other fields honest; plus the masked server key through the client's final step. Oracle: Err.", "3/C11"),
  "C12": (True, "exhaustive fault/mutation enumeration on every protocol step under a panic and time monitor",
-         "All truncations, extensions and bit flips of each of 13 (step, artefact) slots fed to the consuming step, foreign artefacts of other sessions/servers/suites, 256 tape strings per slot, and 8 boundary lengths for every length-carrying parameter; every call of every driver is additionally monitored (catch_unwind, time limit). Oracle: Ok/Err value; over-limit inputs refused, never truncated or wrapped.", "3/C12"),
+         "All truncations, extensions and bit flips of each of 13 (step, artefact) slots fed to the consuming step, foreign artefacts of other sessions/servers/suites, 256 tape strings per slot, 8 boundary lengths for every length-carrying parameter, the key-pair API on mutated keys, and the serde decoders of all 11 types on mutated bincode bytes and JSON text; every call of every driver is additionally monitored (catch_unwind, time limit, hang watchdog). Oracle: Ok/Err value; over-limit inputs refused, never truncated or wrapped.", "3/C12"),
  "C13": (True, "explicit-state BFS of the crash-point LTS (reload choice at each persistence point) with state merging; differential oracle",
-         "At each of six persistence points the reload choice {none, native, bincode, JSON (+ double reloads)} is explored; the reloaded object in that codec is consumed by the next real step; byte-equal states merge, so all 4^6 (6^6) reload subsets are covered; thorough also executes all 4096 flows unmerged on 2 suites; oracle: identical to the uninterrupted run on the same tapes.", "3/C13"),
+         "(a) At each of six persistence points the reload choice {none, native, bincode, JSON (+ double reloads)} is explored as an LTS whose byte-equal states merge, covering all 4^6 (6^6) reload subsets; (b) a truly uninterrupted baseline - the whole flow incl. a no-record login with every party's state kept in memory as typed objects - is compared with the same flow under every reload plan with <=2 (quick) / <=3 (thorough; all 4096 on 2 suites) reloads; oracle: identical to the uninterrupted run on the same tapes.", "3/C13"),
  "C14": (True, "exhaustive product of registrations with an all-pairs relational oracle",
          "Full product 4 passwords x 7 credential ids x 2 seeds x 2 static keys x 3 blinding tapes per suite; masking keys equal iff (pw, cid, seed) equal over ALL pairs; requests differ across blinding tapes; the evaluation through 4 paths equals the reference model.", "3/C14"),
  "C15": (True, "exhaustive enumeration of KSF instance pairs with fault injection at the n-th KSF call (harness-defined Ksf)",
          "All (registration instance, login instance) pairs over {absent, explicit default, id1, id2} x 2 passwords on 20 suites with a logging KSF, failure at call 1 and 2 of each finish step; Argon2 parameter pairs on 3 suites; oracle: one call, on the OPRF output, with the passed instance; success iff equal.", "3/C15"),
  "C16": (True, "explicit-state BFS over registration/login histories (own explorer, stateright cross-count)",
-         "All histories of Register(user, password, server) and Login(user, server, context) within the operation bounds; invariant on every transition: export key stable per record, pairwise distinct across registrations, no secret verbatim in any message or file.", "3/C16"),
+         "All histories of Register(user, password, server), Register-on-a-failing-generator and Login(user, server, context) within the operation bounds; invariant on every transition: export key stable per record, pairwise distinct across registrations, no secret verbatim in any message or file.", "3/C16"),
  "C17": (True, "exhaustive enumeration of tape fork points per randomness-consuming operation (controlled RNG = the only nondeterminism)",
-         "Each of 8 operations is re-executed on tapes forked at every draw boundary (thorough: every byte offset), at 0 and beyond the consumption end; demanded: determinism, no dependence on unread tape, every random field changes on an independent tape, no coincidences.", "3/C17"),
+         "Each of 8 operations is re-executed on tapes forked at every draw boundary (thorough: every byte offset), at 0 and beyond the consumption end, and on generators that fail at every draw position; a single-threaded prelude runs every operation twice back to back and a menu of calls with different inputs (incl. near-miss seeds) in three orders; every sequence of <=3 operations runs on one long-lived in-memory ServerSetup. Demanded: determinism, no hidden state (order independence, long-lived object = fresh object), no dependence on unread tape, every random field varies with the tape (also when the generator fails), no coincidences.", "3/C17"),
  "C18": (True, "exhaustive fault enumeration over the external-key interface (fail at the n-th call for every n) with a differential oracle",
-         "6 operations x 3 settings x 20 suites, clean and with the harness-defined external key failing at every call position up to calls+1; oracle: byte-identical to the direct-key server, only public_key/diffie_hellman used, failure returned as that error.", "3/C18"),
+         "6 operations x 3 settings x 20 suites, clean and with a harness-defined handle-style external key (it serializes to an opaque decoy handle, never to the key) failing at every call position up to calls+1; oracle: byte-identical to the direct-key server, only public_key/diffie_hellman used, failure returned as that error.", "3/C18"),
  "C19": (True, "exhaustive enumeration of a key alphabet (all ordered pairs) and seeds against reference arithmetic",
          "Per suite: seeded derivation for 5 seeds equals the reference DeriveDiffieHellmanKeyPair; for a key alphabet of special, derived and sampled keys: all ordered pairs for DH symmetry, three-way public-key consistency, encode/decode round trips.", "3/C19"),
 }
